@@ -93,6 +93,21 @@ func (x *Exec) callCommon(fr *Frame, st *State, cc *ssa.CallCommon, pre []Val, i
 			return
 		}
 	}
+	// a function-typed parameter declared pure by the contract (opt purecalls name): reads nothing we rely on, changes nothing
+	if prm, ok := cc.Value.(*ssa.Parameter); ok && fr.depth == 0 {
+		for _, n := range strings.Fields(x.c.Opts["purecalls"]) {
+			if n == prm.Name() {
+				x.note("calls of the function parameter " + n + " of " + x.c.Key + " are assumed to be side-effect free (checked at its call sites only informally)")
+				var res []Val
+				sig := cc.Signature()
+				for i := 0; i < sig.Results().Len(); i++ {
+					res = append(res, x.freshVal(st, "pc", sig.Results().At(i).Type()))
+				}
+				k(st, fr, res)
+				return
+			}
+		}
+	}
 	// unknown function value: named func type contract?
 	if key := funcTypeKey(cc.Value.Type()); key != "" {
 		if c, ok := x.prog.specs.Funcs[key]; ok {
@@ -297,12 +312,13 @@ func (x *Exec) appendOp(fr *Frame, st *State, s, t Sl) Sl {
 	if true {
 		newBase = x.def(st, "abase", mkIte(mkAnd(mkEq(n, intLit(0)), fits), s.Base, newBase))
 	}
+	x.alts[newBase.S] = []Term{s.Base, r}
 	for ci, class := range classes {
 		srt := sorts[ci]
 		A := x.classTermSort(st, class, arr(sInt, arr(sInt, srt)))
-		oldInner := mkSelect(A, s.Base)
+		oldInner := x.outerSelect(A, s.Base)
 		srcClasses, _ := x.elemClassesOf(t.Base, et)
-		src := mkSelect(x.classTermSort(st, srcClasses[ci], arr(sInt, arr(sInt, srt))), t.Base)
+		src := x.outerSelect(x.classTermSort(st, srcClasses[ci], arr(sInt, arr(sInt, srt))), t.Base)
 		var inner Term
 		if n.S == "1" {
 			e := mkSelect(src, t.Off)
@@ -321,7 +337,7 @@ func (x *Exec) appendOp(fr *Frame, st *State, s, t Sl) Sl {
 				fits.S, s.Len.S, a2.S, oldInner.S, s.Off.S, a2.S), sBool})
 			inner = a2
 		}
-		x.setClass(st, class, mkStore(A, newBase, inner))
+		x.setClassStore(st, class, A, newBase, inner)
 	}
 	return Sl{newBase, newOff, newLen, newCap, s.GT}
 }
@@ -333,16 +349,16 @@ func (x *Exec) copyOp(st *State, d, s Sl) Term {
 	for ci, class := range classes {
 		srt := sorts[ci]
 		A := x.classTermSort(st, class, arr(sInt, arr(sInt, srt)))
-		oldInner := mkSelect(A, d.Base)
+		oldInner := x.outerSelect(A, d.Base)
 		srcClasses, _ := x.elemClassesOf(s.Base, et)
-		src := mkSelect(x.classTermSort(st, srcClasses[ci], arr(sInt, arr(sInt, srt))), s.Base)
+		src := x.outerSelect(x.classTermSort(st, srcClasses[ci], arr(sInt, arr(sInt, srt))), s.Base)
 		a2 := x.fresh("arr", arr(sInt, srt))
 		hi := x.def(st, "hi", app(sInt, "+", d.Off, n))
 		srcIdx := app(sInt, "+", s.Off, app(sInt, "-", Term{"j", sInt}, d.Off))
 		st.assume(Term{fmt.Sprintf("(forall ((j Int)) (! (and (=> (and (<= %s j) (< j %s)) (= (select %s j) (select %s %s))) (=> (not (and (<= %s j) (< j %s))) (= (select %s j) (select %s j)))) :pattern ((select %s j))))",
 			d.Off.S, hi.S, a2.S, src.S, srcIdx.S,
 			d.Off.S, hi.S, a2.S, oldInner.S, a2.S), sBool})
-		x.setClass(st, class, mkStore(A, d.Base, a2))
+		x.setClassStore(st, class, A, d.Base, a2)
 	}
 	return n
 }
@@ -362,7 +378,7 @@ func (x *Exec) libCall(fr *Frame, st *State, key string, callee *ssa.Function, a
 			wi := wrapVerbIndex(f)
 			if wi >= 0 {
 				A := x.classTermSort(st, x.elemPrefix(va.Base, va.GT.Underlying().(*types.Slice).Elem()), arr(sInt, arr(sInt, sIface)))
-				inner := x.def(st, "werr", mkSelect(mkSelect(A, va.Base), app(sInt, "+", va.Off, intLit(int64(wi)))))
+				inner := x.def(st, "werr", mkSelect(x.outerSelect(A, va.Base), app(sInt, "+", va.Off, intLit(int64(wi)))))
 				st.assume(x.wrapsOnly(e, inner))
 			} else {
 				st.assume(x.wrapsOnly(e, tNilI))
@@ -602,7 +618,7 @@ func (x *Exec) pureResult(st *State, key string, sig *types.Signature, args []Va
 			srt := x.heapSort(et)
 			A := x.classTermSort(st, x.elemPrefix(a.Base, et), arr(sInt, arr(sInt, srt)))
 			sorts = append(sorts, arr(sInt, srt), sInt, sInt)
-			ts = append(ts, mkSelect(A, a.Base), a.Off, a.Len)
+			ts = append(ts, x.outerSelect(A, a.Base), a.Off, a.Len)
 		default:
 			fail("pure function %s with %T argument", key, a)
 		}
@@ -661,7 +677,7 @@ func (x *Exec) havocLocation(ev *specEnv, st *State, it string) {
 			classes, sorts := x.elemClassesOf(b.Base, et)
 			for i, class := range classes {
 				A := x.classTermSort(st, class, arr(sInt, arr(sInt, sorts[i])))
-				x.setClass(st, class, mkStore(A, b.Base, x.fresh("hv", arr(sInt, sorts[i]))))
+				x.setClassStore(st, class, A, b.Base, x.fresh("hv", arr(sInt, sorts[i])))
 			}
 		case Sc:
 			mt, ok := b.GT.Underlying().(*types.Map)
